@@ -41,7 +41,7 @@ def make_source(rng):
     n_cond = int(rng.integers(3, 9))
     rgk = gen.pick(rng, ['singleton', 'pairs', 'giant', 'few'])
     pgk = gen.pick(rng, ['singleton', 'singleton', 'pairs', 'giant', 'few'])
-    lk = gen.pick(rng, gen.LABEL_KINDS)
+    lk = gen.pick(rng, gen.LABEL_KINDS + ['floatts'])
     rg_idx = gen.group_labels(rng, n_rdm, rgk)
     pg_idx = gen.group_labels(rng, n_cond, pgk)
     rl = gen.labels(rng, int(rg_idx.max()) + 1, lk)
